@@ -245,7 +245,7 @@ func Execute(c *Case, chooser func(i int) sched.Chooser, record func(i int, mark
 }
 
 func strategyName(s int) string {
-	return [...]string{"sequential", "random-walk", "pct", "round-robin"}[s]
+	return [...]string{"sequential", "random-walk", "pct", "round-robin", "rendezvous"}[s]
 }
 
 // ---------------------------------------------------------------- generation
@@ -260,6 +260,13 @@ func allRoots(w *world.World) []string {
 
 func genSched(t *core.Tape, horizon int) sched.Config {
 	c := sched.Config{Horizon: horizon}
+	if t.Chance(1, 8) {
+		// as many actions as possible inside one region at the same moment: the driver
+		// seam (read a file, report, import / export a fact) or a random yield site
+		c.Strategy = sched.Rendezvous
+		c.Site = []int{-4, -4, -3, -1, -2, 1 + t.Draw(330)}[t.Draw(6)]
+		return c
+	}
 	switch t.Draw(8) {
 	case 0, 1, 2:
 		c.Strategy = sched.RandomWalk
@@ -329,7 +336,7 @@ func (e Engine) Run(t *core.Tape, opt core.RunOpt, agg *core.Agg) *core.Violatio
 }
 
 func (e Engine) run(t *core.Tape, opt core.RunOpt, agg *core.Agg) (*Case, *failure, uint64, error) {
-	w, _ := world.Generate(t, world.GenOpt{MinPkgs: 2, MaxPkgs: 7, Flat: true, ReadFaults: true, LineDirectives: true, DirExclude: true, MultiModule: true, StdImports: true})
+	w, _ := world.Generate(t, world.GenOpt{MinPkgs: 2, MaxPkgs: 7, Flat: true, ReadFaults: true, LineDirectives: true, DirExclude: true, MultiModule: true, StdImports: true, Bulk: true})
 	k, rep := params(opt)
 	slowDisk := t.Chance(1, 10) // per world: are there executions with a stalled read?
 	c := &Case{World: w}
